@@ -17,6 +17,7 @@ package finisher
 //@ func (*finisher).worker
 //@   property C01
 //@   attr hooked inputCh,sourceProducedCh,sourceFinishedCh,MarkAsFinished,ReceiveFeedback
+//@   attr cancellable @C03 inputCh
 //@   attr assume-pre MarkAsFinished,MarkAsFinished:owns,ReceiveFeedback,ReceiveFeedback:owns
 //@   requires f != nil
 //@   local nRecv int = 0
